@@ -11,6 +11,7 @@ import (
 	"os"
 	"sort"
 	"sync"
+	"time"
 
 	"ergo.services/ergo"
 	"ergo.services/ergo/gen"
@@ -46,6 +47,11 @@ func main() {
 		fmt.Fprintln(os.Stderr, "unknown subcommand")
 		os.Exit(2)
 	}
+	// nothing in this harness may wait for ever: every wait has a stall limit, and the whole run a watchdog
+	time.AfterFunc(time.Duration(120+*n/2)*time.Second, func() {
+		fmt.Fprintln(os.Stderr, "watchdog: the run did not finish")
+		os.Exit(3)
+	})
 	node := startNode()
 	f := hook
 	lib.VerifHook.Store(&f)
